@@ -473,6 +473,7 @@ where
     pub fn clear(&mut self) {
         self.bulk.clear();
         self.state = RangeCoderState::default();
+        self.situation = EncoderSituation::Normal;
     }
 
     /// Assembles the current compressed data into a single slice.
